@@ -63,8 +63,9 @@ func (q *Queue[T]) Acquire(ctx context.Context, e T) (func(), error) {
 	select {
 	case <-ctx.Done():
 		// context abort, remove queued entry
+		// lookup by the wait channel, pointers to entries of a zero size type (struct{}) are not distinct
 		q.mu.Lock()
-		if i := slices.Index(q.queued, &e); i >= 0 {
+		if i := slices.Index(q.wait, &w); i >= 0 {
 			q.queued = slices.Delete(q.queued, i, i+1)
 			q.wait = slices.Delete(q.wait, i, i+1)
 			q.mu.Unlock()
